@@ -8,7 +8,7 @@
 From Coq Require Import List NArith Arith Bool Lia.
 From GmsmVerif Require Import Lib.Outcome Gen.TLSSuites Resume.LruModel Resume.LruProofs
   Resume.TicketModel Resume.TicketProofs Resume.ResumeModel Resume.ResumeProofs
-  Resume.TicketReach Resume.TicketEncoding Resume.ResumeRecords
+  Resume.TicketReach Resume.TicketEncoding Resume.ResumeRecords Resume.ResumeClone
   Rec.RecordSpec Rec.RecordModel Rec.RecordRoundtrip Agree.KeyModel Agree.ConstTie.
 Import ListNotations.
 Close Scope N_scope.
@@ -240,6 +240,20 @@ Proof.
 Qed.
 Print Assumptions C16_history_invariant.
 
+(* 6b. Configurations derived from one another (Config.Clone(), children handed out by GetConfigForClient).  A clone
+   is a copy of every field (clone_hops: keys, suite list, ClientAuth, disabled flag of position dst set to c's);
+   whatever is done afterwards to OTHER configurations - SetSessionTicketKeys rotations on the parent, suite / policy
+   changes, connections, forgeries (hop_target o <> Some dst) - the clone is still exactly the configuration it was
+   cloned from, so (connect takes the configuration found at the position) it resumes and refuses tickets by ITS
+   OWN key history.  With dst := the parent's position the same statement protects the parent from its clones. *)
+Theorem C16_clone_own_key_history :
+  forall (tagT : Type) (mac : N -> N * N * sst -> tagT) tag_eqb junk (h : hstate tagT) c d dst ops,
+    nth_error (h_srv h) dst = Some d -> s_mode d = s_mode c -> s_prefer d = s_prefer c -> s_keys c <> [] ->
+    Forall (fun o => hop_target o <> Some dst) ops ->
+    nth_error (h_srv (hrun mac tag_eqb junk h (clone_hops c dst ++ ops))) dst = Some c.
+Proof. intros tagT mac tag_eqb junk. exact (clone_own_key_history mac tag_eqb junk). Qed.
+Print Assumptions C16_clone_own_key_history.
+
 (* 6a. The re-issued ticket.  When a resumed handshake stores a session (the offered ticket was opened with a
    key that is no longer the first one, so the server sends a fresh ticket), the new ticket is a seal under
    the server's first key of EXACTLY the state of the offered ticket - version, suite, master secret and the
@@ -374,6 +388,17 @@ Example C16_history_example :
   = [(Full, 257, 57363, 0); (Resumed, 257, 57363, 0); (Resumed, 257, 57363, 0); (Resumed, 257, 57363, 0);
      (Full, 257, 57363, 4); (Full, 257, 57363, 5); (Resumed, 257, 57363, 5)].
 Proof. vm_compute. reflexivity. Qed.
+
+(* clone taken after a ticket exists, rotation on the parent: the clone keeps resuming the pre-rotation ticket (key 1),
+   the parent falls back and issues under key 9, resumes on that, and the clone refuses the key-9 ticket *)
+Example C16_clone_own_key_history_example :
+  let h := hrun_term 2 [ex_gm; mkS SGM None false 0 false [2]]
+     ([Connect 0 ex_cli] ++ clone_hops ex_gm 1 ++
+      [Connect 1 ex_cli; RotateKeys 0 [9]; Connect 1 ex_cli; Connect 0 ex_cli; Connect 0 ex_cli; Connect 1 ex_cli]) in
+  ex_show h = [(Full, 257, 57363, 0); (Resumed, 257, 57363, 0); (Resumed, 257, 57363, 0); (Full, 257, 57363, 3);
+               (Resumed, 257, 57363, 3); (Full, 257, 57363, 5)]
+  /\ map s_keys (h_srv h) = [[9]; [1]].
+Proof. vm_compute. split; reflexivity. Qed.
 
 (* a session with a client certificate, a rotation that keeps the old key, and three more connections: the
    first resumption gets a re-issued ticket, the later ones resume on it - always with the client identity 1 *)
